@@ -107,6 +107,61 @@ def rule_routes(ck, facts):
         else:
             ck.bad(R, key, "%s resolves names through %s without consulting visibility_map / reporting PrivateMemberAccess: a private member is reachable through that route" % (f.short, "+".join(kinds)), f.where())
     ck.floor(R, "resolution_routes", n, 3)
+    # ---- which name is looked up: the privacy of the definition a reference *resolved to* is what matters, so the key
+    # of every visibility lookup of a route function derives from the result of its resolver call (the mangled spelling
+    # of the path as written has no entry when the path was resolved relative to the current module)
+    from ..rules.chainwalk import map_field, taint as _taint
+    from ..cfg import DefIndex as _DI
+    m = 0
+    for f in fns:
+        res_calls = [t for _, t in f.calls() if (callee(t) or "").split("::")[-1] in routes and t[6] is not None]
+        if not res_calls:
+            continue
+        di = _DI(f)
+        T = set()
+        for t in res_calls:
+            T |= _taint(f, [t[6][0]])
+        for b, t in f.calls():
+            c = callee(t) or ""
+            if c.split("::")[-1] != "get" or "HashMap" not in c or len(t[5]) < 2:
+                continue
+            fld = map_field(f, di, t[5][0])
+            if not fld or not fld.endswith("visibility_map"):
+                continue
+            m += 1
+            k = t[5][1]
+            key = "vis-key|%s" % f.short.split("::")[-1]
+            if k[0] in ("cp", "mv") and k[1][0] in T:
+                ck.ok(R, key, {"fn": f.short, "key": "derived from the resolver's result"})
+            else:
+                ck.bad(R, key, "%s looks up the visibility of a name that does not come from its resolver call (%s): for a path resolved relative to the current module the spelling as written has no entry, the lookup finds nothing and the privacy check is skipped — `inner::secret()` inside `mod outer` reaches a private member of the nested module" % (f.short, ", ".join(sorted({(callee(x) or "").split("::")[-1] for x in res_calls}))), f.where(t))
+    ck.floor(R, "visibility_lookups_in_routes", m, 2)
+    # ---- the definition a reference finally leads to: a route that follows aliases (`use`, `pub use`) and hands out
+    # the end of the chain must look up the visibility of *that* name too — the re-exporting alias is public by
+    # construction, the member it points at need not be
+    for f in fns:
+        chain = [t for _, t in f.calls() if (callee(t) or "").split("::")[-1] == "resolve_alias_chain" and t[6] is not None]
+        if not chain or f.short.endswith("resolve_alias_chain"):
+            continue
+        builds_var = any(s2[KIND] == "a" and s2[5][0] == "agg" and s2[5][1][0] == "adt" and s2[5][1][1] == roles.EXPR and s2[5][1][3] == "Var" for _, s2 in f.all_stmts())
+        if not builds_var:
+            continue
+        di = _DI(f)
+        T = set()
+        for t in chain:
+            T |= _taint(f, [t[6][0]])
+        ok = False
+        for b, t in f.calls():
+            c = callee(t) or ""
+            if c.split("::")[-1] == "get" and "HashMap" in c and len(t[5]) >= 2 and (map_field(f, di, t[5][0]) or "").endswith("visibility_map"):
+                k = t[5][1]
+                if k[0] in ("cp", "mv") and k[1][0] in T:
+                    ok = True
+        key = "final-target|%s" % f.short.split("::")[-1]
+        if ok:
+            ck.ok(R, key, {"fn": f.short})
+        else:
+            ck.bad(R, key, "%s follows the alias chain and hands out its end, but only looks up the visibility of the name before the chain: `mod internal { fn secret(){..} }  mod api { pub use internal::secret }  api::secret()` reaches the private function through the re-export" % f.short, f.where(chain[0]))
     # fail-open lookups: `if let Some(&is_public) = map.get(..) {..} else { accessible }`
     for f in fns:
         sx = None
